@@ -565,7 +565,26 @@ def run_check(prop, tier, seed, replay=None):
     ctx = {'tier': tier, 'seed': seed, 'rng': rng, 'build_ok': build_ok, 'notes': notes,
            'hist': hist, 'extra_evals': 0, 'extra_nontrivial': 0, 'exhaustive': [], 'broken': broken}
     if not replay:
-        failures += list(prop.extra_checks(ctx))
+        # the scenarios of extra_checks run in this process: a watchdog turns a hang or runaway loop of the implementation
+        # inside one of them into a reported failure instead of a check that never ends
+        import signal
+
+        class _ExtraChecksHang(Exception):
+            pass
+
+        def _alarm(signum, frame):
+            raise _ExtraChecksHang()
+        limit = 900 if tier == 'quick' else 5400
+        old_handler = signal.signal(signal.SIGALRM, _alarm)
+        signal.alarm(limit)
+        try:
+            failures += list(prop.extra_checks(ctx))
+        except _ExtraChecksHang:
+            failures.append(Failure({'kind': 'extra_checks'}, {'limit_s': limit},
+                                    f'a scenario of the directed checks did not finish within {limit} s on the implementation (hang or runaway loop)'))
+        finally:
+            signal.alarm(0)
+            signal.signal(signal.SIGALRM, old_handler)
 
     # ---- 5. outcome
     def report_failure(f, kind):
